@@ -24,10 +24,13 @@ structure GMono (st st' : St) : Prop where
   bo : ∀ (i : Nat) (gb gb' : BGrp), st.bGrp[i]? = some gb → st'.bGrp[i]? = some gb' →
     gb.onDev ≠ "" → gb'.onDev = gb.onDev ∧ gb'.needed = gb.needed
   objs : st'.objs = st.objs
+  bn : ∀ (i : Nat) (gb gb' : BGrp), st.bGrp[i]? = some gb → st'.bGrp[i]? = some gb' →
+    gb'.needed = true → gb.needed = true
 
 theorem GMono.refl (st : St) : GMono st st :=
   ⟨rfl, rfl, fun _ _ _ h h' hn => by rw [h] at h'; cases h'; exact hn,
-    fun _ _ _ h h' _ => by rw [h] at h'; cases h'; exact ⟨rfl, rfl⟩, rfl⟩
+    fun _ _ _ h h' _ => by rw [h] at h'; cases h'; exact ⟨rfl, rfl⟩, rfl,
+    fun _ _ _ h h' hn => by rw [h] at h'; cases h'; exact hn⟩
 
 theorem GMono.aget {st st' : St} (h : GMono st st') {i : Nat} {ga : AGrp} (hi : st.aGrp[i]? = some ga) :
     ∃ ga', st'.aGrp[i]? = some ga' ∧ ga'.g = ga.g := by
@@ -66,7 +69,7 @@ theorem GMono.bget' {st st' : St} (h : GMono st st') {i : Nat} {gb' : BGrp} (hi 
     exact ⟨gb, rfl, this.1, this.2⟩
 
 theorem GMono.trans {a b c : St} (h₁ : GMono a b) (h₂ : GMono b c) : GMono a c := by
-  refine ⟨h₂.ag.trans h₁.ag, h₂.bg.trans h₁.bg, ?_, ?_, h₂.objs.trans h₁.objs⟩
+  refine ⟨h₂.ag.trans h₁.ag, h₂.bg.trans h₁.bg, ?_, ?_, h₂.objs.trans h₁.objs, ?_⟩
   · intro i ga ga'' hi hi'' hn
     obtain ⟨ga', hi', _⟩ := h₁.aget hi
     exact h₂.an i ga' ga'' hi' hi'' (h₁.an i ga ga' hi hi' hn)
@@ -75,6 +78,9 @@ theorem GMono.trans {a b c : St} (h₁ : GMono a b) (h₂ : GMono b c) : GMono a
     obtain ⟨e1, e2⟩ := h₁.bo i gb gb' hi hi' hne
     obtain ⟨f1, f2⟩ := h₂.bo i gb' gb'' hi' hi'' (by rw [e1]; exact hne)
     exact ⟨f1.trans e1, f2.trans e2⟩
+  · intro i gb gb'' hi hi'' hn
+    obtain ⟨gb', hi', _⟩ := h₁.bget hi
+    exact h₁.bn i gb gb' hi hi' (h₂.bn i gb' gb'' hi' hi'' hn)
 
 theorem GMono.anames {st st' : St} (h : GMono st st') :
     st'.aGrp.map (·.g.name) = st.aGrp.map (·.g.name) := by
@@ -98,7 +104,10 @@ theorem GMono.of_out (st : St) (cs : List Cmd) : GMono st (st.emitAll cs) :=
       rw [h] at h''; cases h''; exact hn,
     fun _ _ _ h h' _ => by
       have h'' : st.bGrp[_]? = some _ := h'
-      rw [h] at h''; cases h''; exact ⟨rfl, rfl⟩, rfl⟩
+      rw [h] at h''; cases h''; exact ⟨rfl, rfl⟩, rfl,
+    fun _ _ _ h h' hn => by
+      have h'' : st.bGrp[_]? = some _ := h'
+      rw [h] at h''; cases h''; exact hn⟩
 
 theorem GMono.emit (st : St) (c : Cmd) : GMono st (st.emit c) := GMono.of_out st [c]
 
@@ -108,7 +117,13 @@ theorem GMono.claim (st : St) (i gbi : Nat) (name : String)
     GMono st { st with
       aGrp := modAt st.aGrp i (fun g => { g with needed := true }),
       bGrp := modAt st.bGrp gbi (fun g => { g with needed := false, onDev := name }) } := by
-  refine ⟨?_, ?_, ?_, ?_, rfl⟩
+  refine ⟨?_, ?_, ?_, ?_, rfl, ?_⟩
+  rotate_right
+  · intro j gb gb' hj hj' hn
+    simp only [modAt_getElem?] at hj'
+    split at hj'
+    · rw [hj] at hj'; simp only [Option.map_some, Option.some.injEq] at hj'; rw [← hj'] at hn; cases hn
+    · rw [hj] at hj'; cases hj'; exact hn
   · exact modAt_map st.aGrp i (fun g => { g with needed := true }) (fun x => x.g) (fun _ => rfl)
   · exact modAt_map st.bGrp gbi (fun g => { g with needed := false, onDev := name })
       (fun g => (g.g, g.newName)) (fun _ => rfl)
@@ -128,7 +143,13 @@ theorem GMono.claim (st : St) (i gbi : Nat) (name : String)
 theorem GMono.setOnDev (st : St) (gbi : Nat) (name : String)
     (h0 : ∀ gb, st.bGrp[gbi]? = some gb → gb.onDev = "") :
     GMono st { st with bGrp := modAt st.bGrp gbi (fun g => { g with onDev := name }) } := by
-  refine ⟨rfl, ?_, ?_, ?_, rfl⟩
+  refine ⟨rfl, ?_, ?_, ?_, rfl, ?_⟩
+  rotate_right
+  · intro j gb gb' hj hj' hn
+    simp only [modAt_getElem?] at hj'
+    split at hj'
+    · rw [hj] at hj'; simp only [Option.map_some, Option.some.injEq] at hj'; rw [← hj'] at hn; exact hn
+    · rw [hj] at hj'; cases hj'; exact hn
   · exact modAt_map st.bGrp gbi (fun g => { g with onDev := name }) (fun g => (g.g, g.newName)) (fun _ => rfl)
   · intro j ga ga' hj hj' hn
     have hj'' : st.aGrp[j]? = some ga' := hj'
